@@ -249,20 +249,6 @@ func instantiate(st storage.Store, p *popSpec, now time.Time) (map[string][]*pms
 	return model, nil
 }
 
-// newStore builds a real store of the back end.
-func newStore(c *fw.Ctx, backend string) (storage.Store, *sut.Env, error) {
-	conf := sut.DefaultConf()
-	if backend == "file" {
-		conf.Storage.Type = "file"
-		conf.Storage.Params = map[string]string{"path": c.TempDir("c12fs")}
-	}
-	env, err := sut.NewEnv(conf, backend)
-	if err != nil {
-		return nil, nil, err
-	}
-	return env.Store, env, nil
-}
-
 // expectation of one message at the final observation.
 const (
 	mustGone = iota
